@@ -33,17 +33,23 @@ def run(case) -> CaseResult:
     # repeated call: identical outputs and gradients (RNG ops are re-seeded inside the call)
     bu = pb.build(case, case["seedA"])
     outs = []
-    for _ in range(2):
-        ts = [t.clone().requires_grad_() for t in bu.ts]
+    ts = [t.clone().requires_grad_() for t in bu.ts]   # the SAME leaf tensors are passed to every call (nothing may stick to them)
+    for _ in range(3):
         y = bu.u(*ts)
         g = pb.rt(tuple(y.shape), case["seedG"], "normal", y.dtype)
         gs = torch.autograd.grad(y, ts, g, allow_unused=True)
         outs.append((y.detach(), gs))
-    if not torch.equal(outs[0][0], outs[1][0]):
-        res.fail(f"C02.repeat.output:{op}", "two identical calls returned different values")
-    for role, a, b in zip(bu.roles, outs[0][1], outs[1][1]):
-        if (a is None) != (b is None) or (a is not None and not torch.equal(a, b)):
-            res.fail(f"C02.repeat.grad:{op}:{role}", "two identical calls delivered different gradients")
+    for k in (1, 2):
+        if not torch.equal(outs[0][0], outs[k][0]):
+            res.fail(f"C02.repeat.output:{op}", f"call {k + 1} on the same tensors returned different values than call 1")
+            break
+        bad = False
+        for role, a, b in zip(bu.roles, outs[0][1], outs[k][1]):
+            if (a is None) != (b is None) or (a is not None and not torch.equal(a, b)):
+                res.fail(f"C02.repeat.grad:{op}:{role}", f"call {k + 1} on the same tensors delivered a different gradient than call 1")
+                bad = True
+        if bad:
+            break
     # non-differentiable inputs receive no gradient: float masks / probability targets are passed
     # through untouched by the library, so only check integer inputs cannot get one (structural) -
     # covered by the presence clause inside probe (library grad present iff reference grad present).
